@@ -102,7 +102,7 @@ Section NI.
     ptr_verb verb || no_deep_ptr sh depth = true ->
     pv M st verb sh depth false s1 = pv M st verb sh depth false s2.
   Proof.
-    induction sh as [|i IH|ex i IH|i IH|i IH|i IH| | |i IH]; intros st verb depth He Hg Hn Hp;
+    induction sh as [|i IH|ex i IH|i IH|i IH|i IH| | |i IH|i IH]; intros st verb depth He Hg Hn Hp;
       cbn [pv no_unexported no_deep_ptr] in *.
     - rewrite orb_true_r. now apply leaf_opaque_ni.
     - rewrite orb_true_r. destruct (is_bare i).
@@ -121,6 +121,7 @@ Section NI.
     - cbn [negb]. now rewrite (leaf_opaque_ni st verb).
     - cbn [negb]. now rewrite (leaf_opaque_ni st verb), (leaf_opaque_ni2 st verb).
     - now apply IH.
+    - now rewrite (IH st verb (S depth)).
   Qed.
 
   Lemma render_fmt_ni verb f sh :
@@ -137,21 +138,26 @@ Section NI.
   (* ---- json / yaml / confmap / zap ------------------------------------------------------- *)
   Lemma js_ni html : forall sh, no_mapkey sh = true -> js M html sh s1 = js M html sh s2.
   Proof.
-    induction sh as [|i IH|ex i IH|i IH|i IH|i IH| | |i IH]; intros Hn; simpl in *; try discriminate;
+    induction sh as [|i IH|ex i IH|i IH|i IH|i IH| | |i IH|i IH]; intros Hn; simpl in *; try discriminate;
       try (now rewrite (IH Hn)).
     now rewrite aT.
   Qed.
 
   Lemma yaml_ni : forall sh, yaml_tree M sh s1 = yaml_tree M sh s2.
   Proof.
-    induction sh as [|i IH|ex i IH|i IH|i IH|i IH| | |i IH]; simpl; try (now rewrite IH);
+    induction sh as [|i IH|ex i IH|i IH|i IH|i IH| | |i IH|i IH]; simpl; try (now rewrite IH);
       now rewrite ?aT, ?bT.
   Qed.
 
   Lemma conf_ni : forall sh, conf_tree M sh s1 = conf_tree M sh s2.
   Proof.
-    induction sh as [|i IH|ex i IH|i IH|i IH|i IH| | |i IH]; simpl; try (now rewrite IH);
+    induction sh as [|i IH|ex i IH|i IH|i IH|i IH| | |i IH|i IH]; simpl; try (now rewrite IH);
       try reflexivity; now rewrite ?aT, ?bT.
+  Qed.
+
+  Lemma conf_top_ni sh : conf_top M sh s1 = conf_top M sh s2.
+  Proof.
+    unfold conf_top. destruct (dyn sh) as [|i|ex i|i|i|i| | |i|i]; try apply conf_ni. now rewrite (conf_ni i).
   Qed.
 
   Lemma render_ni_agree : forall p sh, safe p sh = true -> render M p sh s1 = render M p sh s2.
@@ -162,7 +168,7 @@ Section NI.
     - f_equal. apply render_fmt_ni. unfold fmt_safe. now rewrite H.
     - now apply js_ni.
     - now rewrite (yaml_ni sh).
-    - unfold render_confmap. now rewrite (conf_ni sh).
+    - unfold render_confmap. now rewrite (conf_top_ni sh).
     - unfold render_zap_any. rewrite aS. now rewrite (js_ni false sh H).
     - now rewrite (js_ni false sh H).
     - now rewrite aS.
@@ -214,7 +220,7 @@ Section Shows.
     erroring st = false -> good_verb verb = true -> no_unexported sh = true -> fmt_reaches sh depth = true ->
     contains (leaf_opaque M st verb true s) (pv M st verb sh depth false s).
   Proof.
-    induction sh as [|i IH|ex i IH|i IH|i IH|i IH| | |i IH]; intros st verb depth s He Hg Hn Hr;
+    induction sh as [|i IH|ex i IH|i IH|i IH|i IH| | |i IH|i IH]; intros st verb depth s He Hg Hn Hr;
       cbn [pv no_unexported fmt_reaches] in *.
     - rewrite orb_true_r. auto with cont.
     - rewrite orb_true_r. destruct (is_bare i).
@@ -230,6 +236,8 @@ Section Shows.
     - destruct (sharpV st); cont_with ltac:(apply contains_refl).
     - destruct (sharpV st); cont_with ltac:(apply contains_refl).
     - now apply IH.
+    - specialize (IH st verb (S depth) s He Hg Hn Hr).
+      destruct (sharpV st), (plusV st); cbn [orb]; cont_with ltac:(exact IH).
   Qed.
 
   Lemma render_fmt_shows verb f sh s :
@@ -244,7 +252,7 @@ Section Shows.
   Lemma js_shows html : forall sh s, no_unexported sh = true -> no_mapkey sh = true ->
     contains (json_quote html (m_MarshalText M s)) (js M html sh s).
   Proof.
-    induction sh as [|i IH|ex i IH|i IH|i IH|i IH| | |i IH]; intros s Hn Hk; simpl in *; try discriminate;
+    induction sh as [|i IH|ex i IH|i IH|i IH|i IH| | |i IH|i IH]; intros s Hn Hk; simpl in *; try discriminate;
       auto 8 with cont.
     apply andb_true_iff in Hn. destruct Hn as [Hex Hn]. subst ex. auto 8 with cont.
   Qed.
@@ -252,14 +260,14 @@ Section Shows.
   Lemma yaml_shows : forall sh s, no_unexported sh = true ->
     contains (m_MarshalText M s) (canon (yaml_tree M sh s)).
   Proof.
-    induction sh as [|i IH|ex i IH|i IH|i IH|i IH| | |i IH]; intros s Hn; simpl in *; auto 8 with cont.
+    induction sh as [|i IH|ex i IH|i IH|i IH|i IH| | |i IH|i IH]; intros s Hn; simpl in *; auto 8 with cont.
     apply andb_true_iff in Hn. destruct Hn as [Hex Hn]. subst ex. simpl. auto 8 with cont.
   Qed.
 
   Lemma conf_shows : forall sh s, no_unexported sh = true -> no_array sh = true ->
     exists t, conf_tree M sh s = COk t /\ contains (m_MarshalText M s) (canon t).
   Proof.
-    induction sh as [|i IH|ex i IH|i IH|i IH|i IH| | |i IH]; intros s Hn Ha; cbn [conf_tree no_unexported no_array] in *;
+    induction sh as [|i IH|ex i IH|i IH|i IH|i IH| | |i IH|i IH]; intros s Hn Ha; cbn [conf_tree no_unexported no_array] in *;
       try discriminate; try (now apply IH).
     - eexists; split; [reflexivity|]. simpl. auto 8 with cont.
     - apply andb_true_iff in Hn. destruct Hn as [Hex Hn]. subst ex.
@@ -267,6 +275,7 @@ Section Shows.
     - destruct (IH s Hn Ha) as [t [E C]]. rewrite E. eexists; split; [reflexivity|]. simpl. auto 8 with cont.
     - destruct (IH s Hn Ha) as [t [E C]]. rewrite E. eexists; split; [reflexivity|]. simpl. auto 8 with cont.
     - eexists; split; [reflexivity|]. simpl. auto 8 with cont.
+    - destruct (IH s Hn Ha) as [t [E C]]. rewrite E. eexists; split; [reflexivity|]. simpl. auto 8 with cont.
   Qed.
 
   Lemma conf_tree_is_map : forall sh s t, conf_tree M sh s = COk t -> encodes_to_map sh = true ->
@@ -274,15 +283,23 @@ Section Shows.
   Proof.
     assert (D : forall sh s, conf_tree M (dyn sh) s = conf_tree M sh s) by (induction sh; simpl; auto).
     assert (K : forall sh s t, conf_tree M sh s = COk t ->
-                match sh with SField _ _ | SMapVal _ | SMapKey => True | _ => False end -> exists l, t = TMap l).
-    { intros sh s t E. destruct sh as [|i|ex i|i|i|i| | |i]; try contradiction; intros _; cbn [conf_tree] in E.
+                match sh with SField _ _ | SMapVal _ | SMapKey | SMarsh _ => True | _ => False end -> exists l, t = TMap l).
+    { intros sh s t E. destruct sh as [|i|ex i|i|i|i| | |i|i]; try contradiction; intros _; cbn [conf_tree] in E.
       - destruct ex; [destruct (conf_tree M i s); simpl in E|]; inversion E; eauto.
       - destruct (conf_tree M i s); simpl in E; inversion E; eauto.
-      - inversion E; eauto. }
+      - inversion E; eauto.
+      - destruct (conf_tree M i s); simpl in E; inversion E; eauto. }
     intros sh s t E H. unfold encodes_to_map in H. rewrite <- D in E.
-    destruct (dyn sh) as [|i|ex i|i|i|i| | |i] eqn:Ed; try discriminate; try (now apply (K _ _ _ E)).
+    destruct (dyn sh) as [|i|ex i|i|i|i| | |i|i] eqn:Ed; try discriminate; try (now apply (K _ _ _ E)).
     cbn [conf_tree] in E. rewrite <- D in E.
-    destruct (dyn i) as [|j|ex j|j|j|j| | |j] eqn:Ei; try discriminate; now apply (K _ _ _ E).
+    destruct (dyn i) as [|j|ex j|j|j|j| | |j|j] eqn:Ei; try discriminate; now apply (K _ _ _ E).
+  Qed.
+
+  Lemma conf_top_ok : forall sh s t, conf_tree M sh s = COk t -> conf_top M sh s = COk t.
+  Proof.
+    assert (D : forall sh s, conf_tree M (dyn sh) s = conf_tree M sh s) by (induction sh; simpl; auto).
+    intros sh s t H. unfold conf_top. destruct (dyn sh) as [|i|ex i|i|i|i| | |i|i] eqn:E; try exact H.
+    rewrite <- D, E in H. cbn [conf_tree] in H. destruct (conf_tree M i s); simpl in *; [exact H|discriminate].
   Qed.
 
   Lemma render_shows : forall p sh s, shows p sh = true -> contains (leaf_text M p s) (render M p sh s).
@@ -295,7 +312,7 @@ Section Shows.
     - apply andb_true_iff in H. destruct H as [Hn Hk]. now apply js_shows.
     - now apply yaml_shows.
     - apply andb_true_iff in H. destruct H as [H Hm]. apply andb_true_iff in H. destruct H as [Hn Ha].
-      unfold render_confmap. destruct (conf_shows sh s Hn Ha) as [t [E C]]. rewrite E.
+      unfold render_confmap. destruct (conf_shows sh s Hn Ha) as [t [E C]]. rewrite (conf_top_ok sh s t E).
       destruct (conf_tree_is_map sh s t E Hm) as [l El]. subst t. exact C.
     - apply andb_true_iff in H. destruct H as [Hn Hk]. unfold zap_line. auto 8 using js_shows with cont.
     - unfold zap_line. auto 8 with cont.
@@ -414,6 +431,19 @@ Lemma inner_pointer_l : forall s,
   render opaque (PFmt "s" no_flags) (SSlice (SPtr (SField true SBare))) s =
   "[%!s(*struct { F configopaque.String }=&{" ++ s ++ "}) %!s(*struct { F configopaque.String }=&{" ++ s ++ "})]".
 Proof. intros s. vm_compute. repeat (rewrite ?sapp_assoc; simpl). reflexivity. Qed.
+
+(* an array is left in the configuration map as a typed value: the marker is not rendered there *)
+Lemma confmap_array_l : forall s,
+  render opaque PConfmap (SField true (SArray SBare)) s = "{f:<raw [1]configopaque.String>}".
+Proof. intros s. reflexivity. Qed.
+
+(* a nested Marshaler's typed content (a value, a headers map, a slice) comes out redacted *)
+Lemma confmap_marshaler_l : forall s,
+  render opaque PConfmap (SField true (SMarsh SBare)) s = "{f:{v:" ++ dquote ++ "[REDACTED]" ++ dquote ++ "}}" /\
+  render opaque PConfmap (SField true (SMarsh (SMapVal SBare))) s = "{f:{v:{k:" ++ dquote ++ "[REDACTED]" ++ dquote ++ "}}}" /\
+  render opaque PConfmap (SPtr (SMarsh (SSlice SBare))) s
+    = "{v:[" ++ dquote ++ "[REDACTED]" ++ dquote ++ "," ++ dquote ++ "[REDACTED]" ++ dquote ++ "]}".
+Proof. intros s. repeat split. Qed.
 
 Lemma ni_refuted_l : exists p sh s1 s2, p <> PCast /\ render opaque p sh s1 <> render opaque p sh s2.
 Proof. exists (PFmt "d" no_flags), SBare, "a", "b". split; [discriminate|]. vm_compute. discriminate. Qed.
